@@ -8,12 +8,16 @@ evaluator of the tree on the OUTPUT databox:
 
     transform(lhs)[t] - rhs[t] - residual[t] == 0
 
-for every simulated period and equation whose inputs were all computed before
-they were read under the execution order in use (the harness tracks this cell
-by cell with its own information model of the two documented orders).  Where a
-step did read a cell that is overwritten later, nothing is demanded of the
-equation on the output; instead the step is compared with the harness's own
-simulation under the same information ("own information").
+for every simulated period and equation, where every cell is read from the
+output databox if the execution order in use had computed it before the step
+(or never simulates it), and from the INPUT databox if the order computes that
+left-hand cell only later (the value the step actually saw).  The harness
+derives this cell by cell from its own model of the two documented orders:
+steps that saw only final values are the property proper (buckets equation:*),
+steps that saw a cell overwritten later are judged "under their own
+information" (buckets own_information:*).  A harness simulation of the same
+information model is used only to keep cases inside the guarded numeric domain
+and to scale the comparison of the two orders.
 
 Tolerances: every harness evaluation carries a first-order running rounding
 error bound e (unit roundoff u); a discrepancy is accepted iff
@@ -33,12 +37,13 @@ RULE = (
     "a Sequential model is drawn as a structure: 1..6 equations in a valid order (sub-check shuffled: plus a drawn "
     "permutation in which the source is written), per equation a left-hand transform none/log/diff/diff_log/roc/pct, "
     "'=' or identity '===', and a right-hand expression tree over own lags, current/lagged (rarely lead) values of "
-    "earlier left-hand variables, lags of later ones, rhs-only variables, parameters, two-decimal constants, + - * / "
+    "earlier left-hand variables, lags of later ones, rhs-only variables (identities sometimes with a decoy res_<name> "
+    "input series), parameters, two-decimal constants, + - * / "
     "neg log exp sqrt abs maximum minimum and diff/diff_log/roc/pct pseudofunctions of a reference (positive-typed "
     "subtrees under log/sqrt/denominators); rendered to source text and judged by the harness evaluator of the tree. "
     "Inputs: 1-2 variants, span 1..8 periods on yy/qq/mm/ii calendars, initial conditions for every lag, non-zero "
     "residual paths (full, with holes, or absent), rhs-only paths, parameter values per variant; plans of 0..3 "
-    "exogenize() calls (names list or ..., dates tuple or ..., transform None/log/diff/diff_log/roc/pct with its "
+    "exogenize() calls (names list or ..., dates tuple, Span or ..., transform None/log/diff/diff_log/roc/pct with its "
     "<transform>_<name> series, when_data with partially available data, later calls overriding earlier ones); both "
     "execution orders are run on every case; optional target_db. Non-trivial iff (some left-hand transform other than "
     "none and some lagged right-hand reference) or the plan has at least one exogenized point; cases whose harness "
@@ -52,7 +57,9 @@ ASSUMPTIONS = [
     "an exogenized point without when_data always has a data value; when_data points have a value or a missing cell (or no series at all)",
     "simulate() options other than plan=, execution_order= and target_db= stay at their defaults (prepend_input, remove_initial, remove_terminal, shocks_from_data=True, parameters_from_data=False)",
     "cells after the end of the simulation span are not judged in the output (remove_terminal)",
-    "an equation/period step that reads a left-hand cell which the chosen order overwrites later is not required to hold on the output; it is compared with the harness simulation run under the same documented order instead (bucket own_information)",
+    "an equation/period step that reads a left-hand cell which the chosen order computes only later is not required to hold on the output values alone; it must hold with that cell read from the input databox, which is what the documented order ('all equations for the first period, ...' / 'all periods for the first equation, ...') makes the step see (buckets own_information:*)",
+    "a step whose inputs (as seen by the step) are non-finite or outside the domain of its right-hand side is not judged; the step that produced those inputs is",
+    "the two execution orders are required to agree only when neither saw a cell that is computed later",
     "numeric domain guarded by the harness simulation: |values| <= 1e6, arguments of log/sqrt and denominators >= 1e-3; cases outside are skipped, not judged",
     "leads of left-hand variables are drawn only from earlier equations (fresh under equations_dates, stale under dates_equations)",
 ]
@@ -370,8 +377,8 @@ def _simulate_reference(case, v, order, exec_order):
     """The harness's information model of Sequential.simulate for variant v.
 
     order: equation indexes in the order the model holds them.
-    Returns W (name -> list of (value, err) over the grid), info[(pos, k)] =
-    dict(stale=bool, exo=bool).
+    Returns W: name -> list of (value, error bound) over the grid.  Raises _Skip
+    when the simulation leaves the guarded numeric domain.
     """
     P, T = case["P"], case["T"]
     G = P + T + case["F"]
@@ -386,25 +393,17 @@ def _simulate_reference(case, v, order, exec_order):
         rn = _residual_name(eq)
         if rn is not None:
             W[rn] = [((0.0 if math.isnan(c) else c), 0.0) for c in (_cell(case, rn, v, g) for g in range(G))]
-    lhs_pos = {eq["lhs"]: pos for pos, eq in enumerate(eqs)}
     plan = _plan_map(case)
-    done = set()
-    info = {}
     for pos, k in _steps(len(eqs), T, exec_order):
         eq = eqs[pos]
         x, tr, rn = eq["lhs"], eq["tr"], _residual_name(eq)
         g = k + P
-        flag = {"stale": False}
 
-        def get(name, s, _k=k, _pos=pos, _flag=flag):
-            kk = _k + s
-            gg = kk + P
+        def get(name, s, _k=k):
+            gg = _k + s + P
             if gg < 0 or gg >= G:
                 raise _Skip("outside_grid")
-            q = lhs_pos.get(name)
-            if q is not None and 0 <= kk < T and (q, kk) not in done and not (q == _pos and kk == _k):
-                _flag["stale"] = True
-            return W[name][gg]
+            return W[name][gg]      # whatever the working data hold at this step (input if not computed yet)
 
         xlag = W[x][g - 1] if g >= 1 else (NAN, 0.0)
         point = None if eq["ident"] else plan.get((x, k))
@@ -431,9 +430,7 @@ def _simulate_reference(case, v, order, exec_order):
             W[x][g] = _level(tr, r, xlag, True)
             # the transform must be evaluable on the result (positive level for logs, non-zero lag for ratios)
             _ev(_transform_tree(tr, x), get, par, True)
-        done.add((pos, k))
-        info[(pos, k)] = {"stale": flag["stale"], "exo": implied is not None}
-    return W, info
+    return W
 
 
 # ---------------------------------------------------------------------------
@@ -479,7 +476,13 @@ def _build_plan(ir, case, m, span, start):
         return None
     plan = api("plan:create", ir.SimulationPlan, m, span)
     for entry in case["plan"]:
-        dates = ... if entry["periods"] == "all" else tuple(start + k for k in entry["periods"])
+        ks = entry["periods"]
+        if ks == "all":
+            dates = ...
+        elif entry.get("as_span") and ks == list(range(ks[0], ks[-1] + 1)):
+            dates = (start + ks[0]) >> (start + ks[-1])
+        else:
+            dates = tuple(start + k for k in ks)
         if entry["names"] == "all":
             names = ...
         elif len(entry["names"]) == 1:
@@ -656,6 +659,8 @@ def _judge(case, col, m, order, tag, labels):
                 rhs = _ev(eq["rhs"], get, par, False)
                 if tr in LAG_TRANSFORMS or (exo and exo[0] in LAG_TRANSFORMS):
                     get(x, -1)
+                if seen["stale"]:
+                    all_fresh = False
                 if seen["nonfinite"] or rhs[0] != rhs[0]:
                     # a non-finite input of this step, or inputs on which the right-hand side is undefined (log of a
                     # negative number ...): the fault, if any, lies with the step that produced them and is reported there
@@ -681,7 +686,6 @@ def _judge(case, col, m, order, tag, labels):
                 if ok and scale > 0 and abs(d) / (RTOL * scale) > _WORST[0]:
                     _WORST[0] = abs(d) / (RTOL * scale)        # closest accepted call, for tuning the tolerance model
                 if seen["stale"]:
-                    all_fresh = False
                     bucket = f"own_information:{exec_order}:exogenized" if exo else f"own_information:{exec_order}:{kind}:{tr}"
                     note = " with the left-hand cells this order computes only later read from the input"
                 else:
@@ -699,7 +703,7 @@ def _judge(case, col, m, order, tag, labels):
         O0, O1 = outputs[ORDERS[0]], outputs[ORDERS[1]]
         for name in lhs_names + res_names:
             for v in range(nv):
-                W0 = refs[ORDERS[0]][v][0]
+                W0 = refs[ORDERS[0]][v]
                 for g in range(P, P + T):
                     ref_v, ref_e = W0[name][g]
                     tol = 2 * RTOL * (ref_e / U + abs(ref_v))
@@ -911,8 +915,8 @@ def _case(draw, shuffled=False):
                 periods = "all"
             else:
                 periods = sorted(set(draw(st.lists(st.integers(0, T - 1), min_size=1, max_size=3))))
-            plan.append({"names": names, "periods": periods, "transform": draw(st.sampled_from(_EXO_TRANSFORMS)),
-                         "when_data": draw(st.booleans())})
+            plan.append({"names": names, "periods": periods, "as_span": draw(st.booleans()),
+                         "transform": draw(st.sampled_from(_EXO_TRANSFORMS)), "when_data": draw(st.booleans())})
 
     # ---- equations -------------------------------------------------------------------
     kinds = {lhs[i]: ("pos" if trs[i] in POS_TRANSFORMS else "real") for i in range(n)}
@@ -1040,6 +1044,6 @@ FINDING_MATCHERS = {
 
 
 SUBCHECKS = [
-    HypSub("ordered", _ordered_case, _check, _classify, budget={"quick": 4000, "thorough": 96000}),
-    HypSub("shuffled", _shuffled_case, _check, _classify, budget={"quick": 1600, "thorough": 32000}),
+    HypSub("ordered", _ordered_case, _check, _classify, budget={"quick": 5000, "thorough": 120000}),
+    HypSub("shuffled", _shuffled_case, _check, _classify, budget={"quick": 2000, "thorough": 40000}),
 ]
